@@ -173,6 +173,10 @@ PROPS["C20"] = dict(level="exploration", units=_c20_units(),
                  "configurations: p17 = C++17, assertions on, no async stacks (reference); r17 = C++17 -DNDEBUG (assertions and async stacks compiled out); s17 = C++17 with async stack tracing; v17 = C++17 with UNIFEX_ENABLE_CONTINUATION_VISITATIONS=1; p20 = C++20 (clang); s20 = C++20 (g++) with async stack tracing (coroutine tasks)",
                  "copy/move counts of values and allocation counts are not part of the digest (the language may elide differently)"])
 
+# C04 for streams: take_until cancels its trigger, stop_immediately abandons the in-flight next (anchors of C04); the stream unit restricted to
+# the pipelines containing one of them, every oracle (stop reaches the sources, nothing is waited for beyond the running children) bears on C04 there
+PROPS["C04"]["units"].append(Unit("c13_streams", "harness/c13_streams.cpp", cfg="p17", max_size=90, args={"require-stage": "cancel", "retag": "1"}, quick=(15, 600000), thorough=(240, 30000000)))
+
 # C11 for coroutine tasks: the programs of C10 with the scheduler-affinity oracles (resumption and completion context)
 PROPS["C11"]["units"].append(Unit("c10_tasks", "harness/c10_tasks.cpp", cfg="p20", max_size=100, quick=(15, 300000), thorough=(240, 20000000)))
 
